@@ -10,6 +10,7 @@ CONSTANTS
   Entries = {"run", "call", "evaluate"}
   TracerStyles = {"none"}
   Threadeds = {FALSE, TRUE}
+  Givens = {}
   Flags = {}
 INVARIANT Restored
 INVARIANT Contained
